@@ -44,6 +44,7 @@ def gen_sched(T, tier, n_hint=40):
     else:
         p_pre = T.weighted([(14, [0, 1]), (3, [1, 20]), (3, [3, 10])])
     cfg = {"policy": policy, "p_timer": p_timer, "p_preempt": p_pre}
+    cfg["p_gc"] = T.weighted([(12, [0, 1]), (1, [1, 100]), (1, [1, 15])])
     npts = T.draw(4)
     cfg["pct_points"] = [T.between(1, 60 + 12 * n_hint) for _ in range(npts)]
     cfg["starve"] = T.choice(ROLES)
@@ -446,7 +447,7 @@ class Engine:
     def _base_outcome(self, sim, want_trace):
         faults = {}
         for k in ("timeout_fired", "timer_fired_early", "stall", "starve",
-                  "preempt", "pct_change", "queue_full"):
+                  "preempt", "pct_change", "queue_full", "gc"):
             if sim.counters.get(k):
                 faults[k] = sim.counters[k]
         out = {"violation": None, "error": None, "steps": sim.steps,
